@@ -154,6 +154,12 @@ class Driver(object):
                 self.transport.reply_text = json.dumps(reply)
                 proxy = self.proxy if "jsonrpc" in reply else self.proxy1
                 return ("return", proxy.some_method(1, 2))
+            if site == "proxy-wire":
+                # the same reply through the real transport: an HTTP response of a raw peer, parsed in the transport's
+                # own read chunks
+                self.wire_reply = json.dumps(reply).encode("utf-8")
+                wp, wp1 = self._wire()
+                return ("return", (wp if "jsonrpc" in reply else wp1).some_method(1, 2))
             if site == "proxy-notify":
                 self.transport.reply_text = json.dumps(reply)
                 proxy = self.proxy if "jsonrpc" in reply else self.proxy1
@@ -181,6 +187,22 @@ class Driver(object):
                 return ("return", [r for r in results])
         except BaseException as ex:  # noqa
             return ("raise", ex)
+
+    def _wire(self):
+        if getattr(self, "peer", None) is None:
+            from vf.peers import Peer, http_response
+            self.peer = Peer("tcp", decide=lambda req: {"send": http_response(200, "OK", self.wire_reply), "close": False})
+            self.wire = (self.jsonrpclib.ServerProxy(self.peer.url), self.jsonrpclib.ServerProxy(self.peer.url, version=1.0))
+        return self.wire
+
+    def close(self):
+        if getattr(self, "peer", None) is not None:
+            for p in self.wire:
+                try:
+                    p("close")()
+                except Exception:  # noqa
+                    pass
+            self.peer.close()
 
     def _multicall(self, batch):
         self.transport.reply_text = json.dumps(batch)
@@ -347,6 +369,25 @@ def run(ctx):
                     run_case(ctx, drv, site, reply)
                 ctx.sample({"site": "proxy", "reply": reply, "expected": list(map(str, expected(reply)))})
     ctx.exhaustive["directed error table x envelopes (thorough tier only)"] = not ctx.quick
+    # error replies large enough to span several read chunks of the real transport, with long runs of blanks inside the
+    # strings (message, data, result): the text of an error is delivered as the server wrote it
+    import socket
+    socket.setdefaulttimeout(30)
+    w = 0
+    for n in (1, 700, 1023, 1024, 1025, 2047, 2048, 3000, 4096):
+        blanks = " " * n
+        for err in ({"code": -32000, "message": "a" + blanks + "b"}, {"code": 5, "message": blanks, "data": [blanks, "x"]},
+                    {"code": -32603, "message": "m", "data": {"k": "v" + blanks}}, "e" + blanks, blanks + "e",
+                    {"code": 7, "message": "\n" * n + "z"}):
+            for res in ("<absent>", None):
+                for reply in envelopes(err, res):
+                    w += 1
+                    if ctx.mine(w):
+                        run_case(ctx, drv, "proxy-wire", reply)
+        for reply in list(envelopes(None, "r" + blanks + "s")) + list(envelopes("<absent>", [blanks, 0])):
+            w += 1
+            if ctx.mine(w):
+                run_case(ctx, drv, "proxy-wire", reply)
     # batches: every position
     nb = ctx.pick(1500, 40000)
     for _ in range(nb):
@@ -366,6 +407,7 @@ def run(ctx):
             run_case(ctx, drv, site, reply)
         if _ % 5 == 0:
             run_case(ctx, drv, rng.choice(["multicall-whole-reply-index", "multicall-whole-reply-iter"]), reply)
+    drv.close()
 
 
 def finalize(m, tier):
